@@ -7,16 +7,20 @@ from __future__ import annotations
 
 import gc
 import io
+import os
 import random as _random
 import sys
+import tempfile  # noqa: F401 - imported in the template (its private name generator is replaced in children)
 import tokenize  # noqa: F401 - imported in the template so that SimFS can patch its captured open()
+import uuid  # noqa: F401
 
 from .core import OPTION_NAMES, OPTION_SPACE, cjson, derive_seed, digest, normalise, sha_text
 from .simfs import CWD, Patches, SimFS
 from .worker import fork_run
 
 STDOUT_ENCODINGS = ["utf-8", "ascii", "latin-1", "cp1252"]
-PRNG_ALIGN = 20240229  # both the CLI child and the reference child seed `random` with this
+PRNG_ALIGN = 20240229
+_ADDR_RE = __import__("re").compile(r"0x[0-9a-fA-F]{4,}")  # both the CLI child and the reference child seed `random` with this
 
 # ------------------------------------------------------------------------------------------
 # pool: deterministic, self-contained scripts of the supported fragment
@@ -48,6 +52,8 @@ CLI_POOL = {
     "walrus": "data = [1, 2, 3]\nif (n := len(data)) > 2:\n    msg = f'{n} items'\nelse:\n    msg = 'few'\nprint(msg, n)\n",
     "decor": "def twice(fn):\n    return lambda *a: fn(*a) * 2\n@twice\ndef h(v):\n    return v + 1\nu = h(2)\nprint(u)\n",
     "bytes": "b = b'\\x00\\xffab'\nprint(b, len(b), 0x10, 1e3, 2j)\n",
+    "percent": "fmt = '%s and %d%% of {} {0} {name} %(k)s'\nout = 'a %s b' % 'x'\nbr = '{}{{}}'.format(1)\nprint(fmt, out, br, 7 % 3)\n",
+    "biginput": "".join("v%03d = 'payload %03d %s'\n" % (i, i, "x" * 60) for i in range(120)) + "print(v000[:12], v119[:12])\n",
 }
 
 # contents-level variants (bytes -> how the text layer of the CLI sees them)
@@ -70,6 +76,9 @@ SPECIAL_INPUTS = {
     "bom_hello": b"\xef\xbb\xbfprint('hello')\n",
     "lone_cr_in_string": b"s = 'a\\rb'\nt = \"\"\"x\r\ny\rz\"\"\"\nprint(len(s), len(t))\n",
     "formfeed": b"x = 1\n\x0c\ny = 2\nprint(x + y)\n",
+    "blank_line_in_string": b's = """first\n    \n\t\nlast  """\nprint(len(s), repr(s))\n',
+    "indented_whole": b"    x = 1\n    print(x)\n",
+    "trailing_space_lines": b"a = 1   \n\n   \nb = 'x  '   \nprint(a, b)\n   ",
 }
 
 ATTR_NAMES = ["config_names", "__doc__", "__module__", "__dict__", "__class__", "__init__", "__weakref__",
@@ -118,7 +127,9 @@ def child_cli(desc: dict) -> dict:
 
     fsd = desc["fs"]
     fs = SimFS({p: bytes.fromhex(h) for p, h in fsd["files"].items()}, fsd.get("dirs", []), fsd.get("ro", []),
-               fsd.get("unreadable", []), roles=desc.get("roles"), plan=desc.get("plan"), knobs=desc.get("knobs"))
+               fsd.get("unreadable", []), roles=desc.get("roles"),
+               plan=[f for f in (desc.get("plan") or []) if f.get("op") != "line"], knobs=desc.get("knobs"))
+    fs.set_mtimes(fsd.get("mtimes"))
     initial = fs.snapshot()
     patches = Patches(fs)
     old = (sys.argv, sys.stdout, sys.stderr)
@@ -126,20 +137,48 @@ def child_cli(desc: dict) -> dict:
     status = None
     exc = None
     random.seed(PRNG_ALIGN)
+    # crash point: KeyboardInterrupt (what SIGINT becomes) raised at the k-th executed line of the
+    # CLI script itself; the fault-free run counts the lines
+    intr = None
+    for f in desc.get("plan") or []:
+        if f.get("op") == "line":
+            intr = f
+    main_lines = [0]
+    suffix = os.sep + "oneliner" + os.sep + "__main__.py"
+
+    def tracer(frame, event, arg):
+        if not frame.f_code.co_filename.endswith(suffix):
+            return None
+        if event == "line":
+            main_lines[0] += 1
+            if intr is not None and main_lines[0] == intr["at_line"]:
+                fs.fired.append({"at": 0, "kind": "SIGINT", "op": "line", "line": frame.f_lineno})
+                raise KeyboardInterrupt()
+        return tracer
+
     patches.install()
+    patches.install_determinism(PRNG_ALIGN)
     try:
         sys.argv = ["oneliner"] + list(desc["argv"])
         sys.stdout = fs.make_stdout()
         sys.stderr = err
         try:
-            runpy.run_module("oneliner", run_name="__main__", alter_sys=True)
+            if desc.get("trace_main") or intr is not None:
+                sys.settrace(tracer)
+            try:
+                runpy.run_module("oneliner", run_name="__main__", alter_sys=True)
+            finally:
+                sys.settrace(None)
             status = 0
+        except KeyboardInterrupt:
+            status = 130
+            exc = ["KeyboardInterrupt", ""]
         except SystemExit as e:
             status = _exit_status(e.code)
             exc = ["SystemExit", str(e.code)]
         except BaseException as e:  # noqa: BLE001 - uncaught exception of the simulated process
             status = 1
-            exc = [type(e).__name__, str(e)[:300]]
+            exc = [type(e).__name__, _ADDR_RE.sub("0x?", str(e))[:300]]
         # interpreter finalisation: leaked file objects are closed, then stdout is flushed
         gc.collect()
         for o in list(fs.open_objs):
@@ -160,7 +199,7 @@ def child_cli(desc: dict) -> dict:
     return {
         "status": status, "exc": exc, "stdout": bytes(fs.stdout_bytes).hex(), "stderr": err.getvalue()[-1500:],
         "initial": initial, "final": fs.snapshot(), "history": fs.history, "mutations": fs.mutations,
-        "fired": fs.fired, "passthrough": fs.passthrough, "points": fs.seq,
+        "fired": fs.fired, "passthrough": fs.passthrough, "points": fs.seq, "main_lines": main_lines[0],
     }
 
 
@@ -181,7 +220,7 @@ def child_exp(arg) -> dict:
                 setattr(o, n, model[n])
         conv = oneliner.convert_code_string(text, configs=o)
     except BaseException as e:  # noqa: BLE001
-        return {"out": "exc", "exc": [type(e).__name__, str(e)[:300]]}
+        return {"out": "exc", "exc": [type(e).__name__, _ADDR_RE.sub("0x?", str(e))[:300]]}
     res = {"out": "ok", "sha": sha_text(normalise(conv)), "raw_sha": sha_text(conv), "len": len(conv)}
     res["enc_ok"] = {}
     for enc in STDOUT_ENCODINGS:
@@ -228,7 +267,7 @@ def _behaviour(code: str, mode: str):
         else:
             eval(compile(code, "<oneliner>", "eval"), g)
     except BaseException as e:  # noqa: BLE001
-        return ["raised", type(e).__name__, str(e)[:200]]
+        return ["raised", type(e).__name__, _ADDR_RE.sub("0x?", str(e))[:200]]
     out = {}
     for k in sorted(g):
         if k.startswith("__") or k in ("print", "itertools", "importlib"):
@@ -302,12 +341,15 @@ def gen_base(seed: int) -> dict:
     rng = _random.Random(seed)
     # ---- input -----------------------------------------------------------------------
     in_kind = rng.choice(["pool"] * 13 + ["special"] * 5 + ["absent", "dir", "unreadable"])
-    in_path = rng.choice(["in.py", "in.py", "src/main.py", "\u00e9ntr\u00e9e.py"])
-    out_path = rng.choice(["out.txt", "out.txt", "build/out.py", "r\u00e9sultat.txt"])
+    in_path = rng.choice(["in.py", "in.py", "src/main.py", "\u00e9ntr\u00e9e.py", "in[1].py", "my in.py", "./in.py", "@in.py", "src/../in2.py", "~/in.py"])
+    out_path = rng.choice(["out.txt", "out.txt", "build/out.py", "r\u00e9sultat.txt", "out[1].txt", "my out.txt", "./out.txt",
+                           "build/../out2.txt", "~out.txt", "out.txt~", "~/out.txt"])
     files, dirs, ro, unreadable = {}, set(), [], []
     for p in (in_path, out_path):
         if "/" in p:
             dirs.add(p.rsplit("/", 1)[0])
+            if ".." in p:
+                dirs.add(p.split("/", 1)[0])
     prog = variant = special = None
     in_state = "present"
     if in_kind == "pool":
@@ -338,7 +380,10 @@ def gen_base(seed: int) -> dict:
         elif out_state == "longer":
             files[out_path] = b"#" * rng.choice([5000, 20000])
         elif out_state == "same_as_in":
-            out_path = in_path
+            # the same file, sometimes through a different spelling
+            out_path = rng.choice([in_path, in_path, "./" + in_path, "zz/../" + in_path])
+            if out_path.startswith("zz/"):
+                dirs.add("zz")
         elif out_state == "missing_dir":
             out_path = "nodir/out.txt"
         elif out_state == "is_dir":
@@ -401,6 +446,55 @@ def gen_base(seed: int) -> dict:
     })
 
 
+def follow_up(base: dict, res: dict, seed: int):
+    """A second invocation on the file tree the first one left behind (same OUT): the result of
+    run 2 must not depend on what run 1 wrote.  Returns a new base descriptor or None."""
+    if base["out_mode"] != "file" or res["status"] != 0 or base["in_state"] != "present":
+        return None
+    if any(it["cls"] in INVALID_CLASSES for it in base["items"]) or base["out_state"] == "same_as_in":
+        return None
+    rng = _random.Random(derive_seed(seed, "followup"))
+    d = {k: base[k] for k in ("prop", "out_mode", "in_path", "out_path", "in_state", "roles", "knobs")}
+    d["seed"] = seed
+    d["plan"] = []
+    files = {}
+    for pth, h in res["final"]["files"].items():
+        rel = pth[len(CWD) + 1:] if pth.startswith(CWD + "/") else pth
+        files[rel] = h
+    # keep the caller's spelling of IN as key
+    in_norm = SimFS.norm(base["in_path"])
+    files = {(base["in_path"] if SimFS.norm(k) == in_norm else k): v for k, v in files.items()}
+    kind = rng.choice(["same", "other_options", "other_options", "other_program_older", "other_program_newer", "invalid_item"])
+    d["followup"] = kind
+    mt = {base["in_path"]: 1000.0, base["out_path"]: 200000.0}
+    prog, variant, special = base["prog"], base["variant"], base["special"]
+    items = [p for p in base["parts"] if p["kind"] == "item"]
+    fixed = [p for p in base["parts"] if p["kind"] != "item"]
+    if kind in ("other_options", "invalid_item"):
+        items = []
+        for _ in range(rng.choice([0, 1, 2, 3])):
+            it = _valid_item(rng)
+            if any(p["item"].get("name") == it["name"] for p in items):
+                continue
+            items.append({"kind": "item", "item": it, "argv": _spell(it, rng)})
+        if kind == "invalid_item":
+            it = _invalid_item(rng)
+            if it["cls"] != "dangling_C":
+                items.append({"kind": "item", "item": it, "argv": _spell(it, rng)})
+            else:
+                items.append({"kind": "item", "item": {"cls": "malformed", "raw": "unparser"}, "argv": ["-Cunparser"]})
+    elif kind.startswith("other_program"):
+        prog = rng.choice(sorted(CLI_POOL))
+        variant, special = "plain", None
+        files[base["in_path"]] = make_input_bytes(prog, "plain").hex()
+        mt[base["in_path"]] = 1000.0 if kind.endswith("older") else 900000.0
+    d["parts"] = fixed + items
+    d["prog"], d["variant"], d["special"] = prog, variant, special
+    d["out_state"] = "longer"  # pre-existing, arbitrary length relative to the new result
+    d["fs"] = {"files": files, "dirs": list(base["fs"]["dirs"]), "ro": [], "unreadable": [], "mtimes": mt}
+    return materialise(d)
+
+
 def materialise(desc: dict) -> dict:
     """argv and the typed item list are functions of the parts."""
     desc["argv"] = [a for p in desc["parts"] for a in p["argv"]]
@@ -409,13 +503,16 @@ def materialise(desc: dict) -> dict:
 
 
 FAULT_KINDS = {
-    "open": ["ENOENT", "EACCES", "ENOSPC", "EMFILE", "EIO"],
-    "read": ["short", "EIO", "EINTR"],
-    "write": ["short", "ENOSPC", "EIO", "EDQUOT", "EINTR"],
+    "open": ["ENOENT", "EACCES", "ENOSPC", "EMFILE", "EIO", "ESTALE"],
+    "read": ["short", "EIO", "EINTR", "ESTALE"],
+    "write": ["short", "ENOSPC", "EIO", "EDQUOT", "EINTR", "EAGAIN", "ESTALE"],
     "close": ["EIO", "ENOSPC"],
-    "rename": ["EACCES", "ENOSPC"],
-    "unlink": ["EACCES"],
+    "rename": ["EACCES", "ENOSPC", "EBUSY", "EXDEV"],
+    "unlink": ["EACCES", "EBUSY"],
 }
+# kinds that are also injected as a persistent condition (every later call of that kind on that file
+# fails too): a full disk stays full, a stale handle stays stale
+PERSISTENT_KINDS = {"open": ["EACCES", "ESTALE"], "write": ["ENOSPC", "ESTALE", "EAGAIN"], "read": ["EIO"], "close": []}
 BENIGN = ("short", "EINTR")
 
 
@@ -443,6 +540,10 @@ def single_fault_plans(result: dict) -> list:
                 plans.append([dict(f, n=1 << 20)])  # all but one byte
             else:
                 plans.append([f])
+                if k in PERSISTENT_KINDS.get(op, ()):
+                    plans.append([dict(f, persist=True)])
+                if op == "close" and role == "OUT":
+                    plans.append([dict(f, lose=True)])  # deferred write error: data never hit the disk
     return plans
 
 
@@ -515,11 +616,8 @@ def judge(ctx: C16Ctx, desc: dict, res: dict) -> list:
             viol("P3", "fs-changed-despite-invalid-option", changed=changed)
         return V
 
-    # nothing but OUT may ever be mutated
-    foreign = [p for p in mutated_paths if p != out_p]
-    if foreign:
-        viol("P1", "foreign-path-mutated", paths=foreign)
-
+    # (valid option list) other paths are judged by their END state only, so that refactors that
+    # go through a temporary file and rename it are not punished
     if desc["in_state"] != "present":
         return V  # not gated: the statement quantifies over input files that exist
     data = bytes.fromhex(fsd["files"][desc["in_path"]])
@@ -549,8 +647,9 @@ def judge(ctx: C16Ctx, desc: dict, res: dict) -> list:
         return False, "differs"
 
     if desc["out_mode"] == "stdout":
-        if res["mutations"] or changed:
-            viol("P1", "fs-changed-in-stdout-mode", changed=changed, mutations=res["mutations"][:4])
+        changed_old = [p for p in changed if p in initial["files"]]
+        if changed_old:
+            viol("P1", "fs-changed-in-stdout-mode", changed=changed_old)
         senc = desc["knobs"].get("stdout_encoding", "utf-8")
         ok, how = text_ok(bytes.fromhex(res["stdout"]), True, senc)
         if status == 0 and not ok:
@@ -562,18 +661,20 @@ def judge(ctx: C16Ctx, desc: dict, res: dict) -> list:
             viol("P4" if fired else "P1", "failed-without-error-fault", status=status, exc=res["exc"], fired=fired)
         return V
 
+    # exit 0 always claims that OUT holds the text; when OUT cannot be created as things stand
+    # (missing directory, a directory, read-only) failing is permitted, and succeeding is fine only
+    # if OUT really holds the text afterwards (e.g. the directory was created, or the read-only
+    # file was replaced by a rename)
     creatable = desc["out_state"] in ("absent", "shorter", "longer", "same_as_in")
-    if not creatable:
-        if status == 0:
-            viol("P1", "exit0-but-output-uncreatable", out_state=desc["out_state"])
-        return V
     out_bytes = bytes.fromhex(final["files"][out_p]) if out_p in final["files"] else None
     ok, how = (False, "missing") if out_bytes is None else text_ok(out_bytes, False)
     if status == 0 and not ok:
-        viol("P4" if fired else "P1", "exit0-but-output-" + how, fired=fired)
-    if status != 0 and not error_fault:
+        viol("P4" if fired else "P1", "exit0-but-output-" + how, fired=fired, out_state=desc["out_state"])
+    if status != 0 and not error_fault and creatable:
         viol("P4" if fired else "P1", "failed-without-error-fault", status=status, exc=res["exc"], fired=fired)
-    others = [p for p in changed if p != out_p]
+    # files that existed before and are not OUT must be unchanged; new files next to OUT (a
+    # backup, a lock file) are not forbidden by the statement
+    others = [p for p in changed if p != out_p and p in initial["files"]]
     if others:
         viol("P1", "other-file-changed", paths=others)
     return V
@@ -633,6 +734,9 @@ def register(tpl):
                 agg["failures"].append({"seed": base_seed, "desc": desc, "violations": V})
 
         for seed, base in bases:
+            do_intr = bool(req.get("interrupts", True)) and req.get("faults", True) and seed % 3 == 0
+            if do_intr:
+                base = dict(base, trace_main=True)
             res, V = run_one(base)
             agg["bases"] += 1
             account(base, res, V, seed)
@@ -667,6 +771,9 @@ def register(tpl):
                     k = rngm.choice([2, 2, 3])
                     if len(singles) >= k:
                         plans.append(sorted(rngm.sample(singles, k), key=lambda f: f["at"]))
+                if do_intr:
+                    for k in range(1, res.get("main_lines", 0) + 1):
+                        plans.append([{"at": 0, "op": "line", "kind": "SIGINT", "at_line": k}])
                 for plan in plans:
                     d2 = dict(base, plan=plan)
                     r2, V2 = run_one(d2)
@@ -679,8 +786,20 @@ def register(tpl):
                         probe("short_write_fired")
                     if any(f["kind"] == "EPIPE" for f in r2["fired"]):
                         probe("EPIPE_on_stdout")
+                    if any(f["kind"] == "SIGINT" for f in r2["fired"]):
+                        probe("interrupted_at_a_line_of_the_cli")
+                        if any(m[2] == "OUT" for m in r2["mutations"]):
+                            probe("interrupted_after_OUT_was_opened")
                     if inv and r2["fired"]:
                         probe("fault_during_invalid_option_run")
+            if req.get("followups", True) and "seeds" in req and seed % 2 == 1:
+                fu = follow_up(base, res, seed)
+                if fu is not None:
+                    r3, V3 = run_one(fu)
+                    agg["followups"] = agg.get("followups", 0) + 1
+                    run_digests.append(digest([fu["argv"], r3]))
+                    account(fu, r3, V3, seed)
+                    probe("second_invocation_on_left_over_tree:" + fu["followup"])
             if req.get("want_digests"):
                 agg["digests"][str(seed)] = digest(run_digests)
         agg["traces"] = sorted(traces)
